@@ -2,7 +2,7 @@
     ([C22.Props.range_roundtrip]); codes, names and severities on the tables of Gen/C20_Diag.v
     (regenerated from the Rust source before every build). *)
 From Coq Require Import List String NArith Bool.
-From EV Require Import C21.Model C21.Proofs.
+From EV Require Import C20.Proofs C21.Model C21.Proofs.
 Import ListNotations.
 Local Open Scope N_scope.
 
@@ -51,10 +51,11 @@ Theorem syntax_errors_all_reported :
   exists ds, diagnose_file (translate_range t) cfg f (syntax_error_checker errs extra :: others) = Some ds /\
              In {| d_code := code_of_kind (pe_doc pe); d_name := code_name (code_of_kind (pe_doc pe));
                    d_range := translate_range t (pe_range pe);
-                   d_severity := get_severity cfg (code_of_kind (pe_doc pe)); d_msg := pe_msg pe |} ds.
+                   d_severity := get_severity cfg (code_of_kind (pe_doc pe)); d_msg := pe_msg pe; d_data := None |} ds.
 Proof. exact Proofs.syntax_errors_all_reported. Qed.
 
-(** ... exactly one diagnostic per parse error, in order, ahead of all other diagnostics, when both codes are on *)
+(** ... one diagnostic per parse error, in order, ahead of all other diagnostics, when both codes are on
+    (identical ones merged by [get_diagnostics]; none merged when the errors are pairwise different) *)
 Theorem syntax_errors_one_each :
   forall (t : text) (cfg : config) (f : file) (errs : list parse_error) (extra : list emit) (others : list checker)
          (ds : list diag),
@@ -62,8 +63,19 @@ Theorem syntax_errors_one_each :
   is_checker_enable_by_code cfg f C_SyntaxError = true ->
   is_checker_enable_by_code cfg f C_DocSyntaxError = true ->
   (forall pe, In pe errs -> f_suppressed f (code_of_kind (pe_doc pe)) (pe_range pe) = false) ->
-  exists rest, ds = map (Proofs.diag_of_error t cfg) errs ++ rest.
+  exists rest, ds = get_diagnostics (map (Proofs.diag_of_error t cfg) errs ++ rest).
 Proof. exact Proofs.syntax_errors_one_each. Qed.
+
+Theorem syntax_errors_prefix :
+  forall (t : text) (cfg : config) (f : file) (errs : list parse_error) (extra : list emit) (others : list checker)
+         (ds : list diag),
+  diagnose_file (translate_range t) cfg f (syntax_error_checker errs extra :: others) = Some ds ->
+  is_checker_enable_by_code cfg f C_SyntaxError = true ->
+  is_checker_enable_by_code cfg f C_DocSyntaxError = true ->
+  (forall pe, In pe errs -> f_suppressed f (code_of_kind (pe_doc pe)) (pe_range pe) = false) ->
+  NoDup (map (Proofs.diag_of_error t cfg) errs) ->
+  exists rest, ds = map (Proofs.diag_of_error t cfg) errs ++ rest.
+Proof. exact Proofs.syntax_errors_prefix. Qed.
 
 (** ... and a code that the chain switches off is not reported *)
 Theorem disabled_syntax_code_silent :
@@ -86,13 +98,21 @@ Proof. exact Proofs.code_names_distinct. Qed.
 Theorem all_codes_complete : forall c : code, In c all_codes.
 Proof. exact Proofs.all_codes_complete. Qed.
 
+(** "The list for a file never contains exact duplicates" — for ALL checkers: [get_diagnostics] keeps the first
+    of equal diagnostics (whether it does is read off the source: [dedup_diagnostics] in Gen/C20_Diag.v) *)
+Theorem no_exact_duplicates :
+  forall (tr : range -> lsp_range) (cfg : config) (f : file) (ks : list checker) (ds : list diag),
+  diagnose_file tr cfg f ks = Some ds -> NoDup ds.
+Proof. exact C20.Proofs.no_exact_duplicates. Qed.
+
 (** "a severity" *)
 Theorem severity_total :
   forall (tr : range -> lsp_range) (cfg : config) (f : file) (ks : list checker) (ds : list diag) (d : diag),
   diagnose_file tr cfg f ks = Some ds -> In d ds -> exists s, d_severity d = Some s.
 Proof. exact Proofs.severity_total. Qed.
 
-(** non-vacuity: a CRLF text with an astral character, one syntax error and one doc error at the end of the text *)
+(** non-vacuity: a CRLF text with an astral character, one syntax error recorded twice by the parser and one
+    doc error at the end of the text *)
 Example syntax_example :
   option_map (map (fun d => (d_name d, d_range d, d_severity d)))
     (diagnose_file (translate_range Proofs.ex_text) Proofs.ex_cfg Proofs.ex_file [syntax_error_checker Proofs.ex_errs []])
